@@ -22,7 +22,7 @@ using namespace dec;
 namespace {
 
 decoder_t *gDec[6] = {nullptr, nullptr, nullptr, nullptr, nullptr, nullptr}; // [5]: cmn=batch
-int gFrate[6] = {100, 100, 100, 50, 125, 100};
+int gFrate[6] = {100, 100, 100, 50, 105, 100}; // 105 does not divide the sample rate: the frame shift is rounded, the times are not
 bool c_probeKnown = false; // set per case: assert listed known classes on a small fraction of cases
 
 struct Case {
@@ -33,6 +33,7 @@ struct Case {
   std::string audioDesc;
   std::vector<Chunk> chunks;
   bool fullUtt = false;
+  long preRot = -1; // >= 0: an earlier utterance of the same length (the audio rotated by this many samples) runs first
   int jsonLevel = 0;
   double jsonStart = 0;
 };
@@ -72,14 +73,15 @@ Case genCase(Choices &c, int queryPct, bool forJson = false, unsigned compallsen
   // a full-utterance block may be followed by a query before end_utt (end_utt then searches nothing new)
   if (k.fullUtt) k.chunks = {{(size_t)N, false, c.coin(60)}};
   else k.chunks = genChunks(c, (size_t)N, true, queryPct);
+  if (c.coin(18)) k.preRot = N > 0 ? (long)c.range(0, (uint32_t)N - 1) : 0;
   return k;
 }
 
 std::string caseDesc(const Case &k) {
   std::ostringstream o;
-  static const char *DN[] = {"default", "compallsen", "hostile-dict", "hostile-dict+frate50", "hostile-dict+frate125"};
+  static const char *DN[] = {"default", "compallsen", "hostile-dict", "hostile-dict+frate50", "hostile-dict+frate105"};
   o << "dec=" << DN[k.decIdx] << (k.jsonLevel || k.jsonStart != 0 ? " json(level=" + std::to_string(k.jsonLevel) + ",start=" + fmt3(k.jsonStart) + ")" : "") << " " << k.sc.str() << " | " << k.gram.desc << " | N=" << k.audio.size() << " "
-    << k.audioDesc << (k.fullUtt ? " full_utt" : "") << " chunks=" << chunksStr(k.chunks);
+    << k.audioDesc << (k.fullUtt ? " full_utt" : "") << " chunks=" << chunksStr(k.chunks) << (k.preRot >= 0 ? " after-same-length-utterance(rot=" + std::to_string(k.preRot) + ")" : "");
   return o.str();
 }
 
@@ -957,6 +959,26 @@ Verdict runCase(Choices &c, Ctx &ctx, Which which) {
   fsa::Fsa gplus = augmentedExplicitNulls(d);
   fsa::Fsa gEps = augmented(d);
   fsg_search_t *fs = (fsg_search_t *)d->search;
+  if (k.preRot >= 0) {
+    // an earlier utterance on the same search object with exactly the same number of samples (hence frames),
+    // with every kind of result requested: whatever the decoder caches by frame count is now populated
+    size_t N = k.audio.size();
+    int16_t *blk = (int16_t *)malloc(N ? N * 2 : 1);
+    for (size_t i = 0; i < N; ++i) blk[i] = k.audio[(i + (size_t)k.preRot) % N];
+    PBT_CHECK(decoder_start_utt(d) == 0, "start-utt-failed", "decoder_start_utt failed (earlier utterance)");
+    int r = decoder_process_int16(d, blk, N, 0, k.fullUtt);
+    free(blk);
+    PBT_CHECK(r >= 0, "process-error", "decoder_process_int16 returned " << r << " (earlier utterance)");
+    (void)observe(d);
+    (void)decoder_alignment(d);
+    PBT_CHECK(decoder_end_utt(d) == 0, "end-utt-failed", "decoder_end_utt failed (earlier utterance)");
+    (void)observe(d);
+    (void)decoder_lattice(d);
+    (void)decoder_alignment(d);
+    (void)decoder_result_json(d, 0, 2);
+    if (hyp_iter_t *nb = decoder_nbest(d)) hyp_iter_free(nb);
+    ctx.label("earlier-utterance-with-the-same-frame-count");
+  }
   ctx.label(k.gram.kind == Gram::JSGF ? "door:jsgf" : k.gram.kind == Gram::FSG ? "door:fsg" : "door:align");
   ctx.label("audio:" + k.audioDesc.substr(0, k.audioDesc.find('(')));
   ctx.labelIf(fsa::accepts(k.gram.own, {}, false), "grammar:accepts-empty-sentence");
@@ -1166,6 +1188,21 @@ Verdict propC08(Choices &c, Ctx &ctx) {
     }
     UttSpec U = genUtt(c, true);
     if (c.coin(30)) U.gram = H[0].gram;
+    // caches inside the decoder are keyed on frame counts: give one history utterance exactly the target's
+    // number of samples (hence frames) with different content
+    int sibling = -1;
+    if (c.coin(35)) {
+      sibling = (int)c.range(0, nh - 1);
+      UttSpec &sb = H[(size_t)sibling];
+      size_t N = U.audio.size();
+      size_t rot = N ? (size_t)c.range(0, (uint32_t)N - 1) : 0;
+      sb.audio.assign(N, 0);
+      for (size_t i = 0; i < N; ++i) sb.audio[i] = U.audio[(i + rot) % N];
+      sb.adesc = "target-rotated(" + std::to_string(rot) + ")";
+      sb.plan.fullUtt = U.plan.fullUtt;
+      sb.plan.chunks = {{N, false, false}};
+      sb.plan.useFloat = false;
+    }
     // reset of the one deliberate carry-over; in full-utterance batch mode no reset is needed
     bool needReset = !(batch && U.plan.fullUtt);
     if (needReset) U.cmn = c.coin(70) ? "40,3,-1" : "35.5,2,-0.5,1";
@@ -1178,13 +1215,17 @@ Verdict propC08(Choices &c, Ctx &ctx) {
     applySearchCfg(dd, sc);
     std::string fresh = runIsolated([&]() { return runSpec(dd, U, withAlign, nullptr); });
     bool failedInH = false, differs = false;
-    for (auto &u : H) {
-      std::string r = runSpec(dd, u, c.coin(30), &ctx);
+    for (size_t hi = 0; hi < H.size(); ++hi) {
+      auto &u = H[hi];
+      bool al = c.coin(30);
+      if ((int)hi == sibling) al = al || withAlign;
+      std::string r = runSpec(dd, u, al, &ctx);
       if (r.find("hyp=NULL") != std::string::npos) failedInH = true;
       if (u.audio != U.audio || u.gram.text != U.gram.text) differs = true;
     }
     std::string after = runSpec(dd, U, withAlign, nullptr);
     ctx.labelIf(failedInH, "history:utterance-without-hypothesis");
+    ctx.labelIf(sibling >= 0, "history:utterance-with-the-target's-frame-count");
     ctx.labelIf(batch, "config:cmn=batch");
     ctx.labelIf(batch && U.plan.fullUtt, "target:full_utt-batch(no-reset)");
     ctx.labelIf(U.plan.fullUtt, "target:full_utt");
@@ -1562,7 +1603,7 @@ void initDecode() {
   gDec[2] = makeDecoder(h);
   h.frate = 50;
   gDec[3] = makeDecoder(h);
-  h.frate = 125;
+  h.frate = 105;
   gDec[4] = makeDecoder(h);
   DecCfg bt;
   bt.cmn = "batch";
